@@ -213,6 +213,11 @@ class Immutable:
 
         raise AttributeError('Class is immutable!')
 
+    def __delattr__(self, name: str) -> None:  # pragma: no cover
+        """Prevent mutability."""
+
+        raise AttributeError('Class is immutable!')
+
 
 def is_hidden(path: AnyStr) -> bool:
     """Check if file is hidden."""
